@@ -10,7 +10,8 @@ Import ListNotations.
 Open Scope N_scope.
 
 Definition W64 : N := 2 ^ 64.
-Definition wrap (x : N) : N := x mod W64.                       (* uint64 arithmetic *)
+Definition wrap (x : N) : N := N.land x (N.ones 64).              (* uint64 arithmetic: x mod 2^64 *)
+Definition hi64 (x : N) : N := N.shiftr x 64.                     (* x / 2^64 *)
 Definition mask51 : N := 2 ^ 51 - 1.                            (* maskLow51Bits *)
 Definition lo51 (x : N) : N := N.land x mask51.
 Definition shr51 (x : N) : N := N.shiftr x 51.
@@ -25,11 +26,11 @@ Definition fe_one : fe := mkfe 1 0 0 0 0.
 
 (** uint128 of fe_generic.go *)
 Record u128 := mk128 { lo : N; hi : N }.
-Definition mul64 (a b : N) : u128 := let p := a * b in mk128 (p mod W64) (p / W64).          (* bits.Mul64 *)
+Definition mul64 (a b : N) : u128 := let p := a * b in mk128 (wrap p) (hi64 p).                (* bits.Mul64 *)
 Definition addMul64 (v : u128) (a b : N) : u128 :=
   let p := a * b in
-  let s := p mod W64 + lo v in                                   (* bits.Add64(lo, v.lo, 0) *)
-  mk128 (s mod W64) (wrap (p / W64 + hi v + s / W64)).          (* bits.Add64(hi, v.hi, c), carry out dropped *)
+  let s := wrap p + lo v in                                      (* bits.Add64(lo, v.lo, 0) *)
+  mk128 (wrap s) (wrap (hi64 p + hi v + hi64 s)).               (* bits.Add64(hi, v.hi, c), carry out dropped *)
 Definition shiftRightBy51 (a : u128) : N := N.lor (wrap (N.shiftl (hi a) 13)) (N.shiftr (lo a) 51).
 
 (** carryPropagateGeneric *)
@@ -74,7 +75,7 @@ Definition fe_add (a b : fe) : fe :=
                  (wrap (l4 a + l4 b))).
 
 (** uint64 subtraction x - y *)
-Definition wsub (x y : N) : N := (x + W64 - y mod W64) mod W64.
+Definition wsub (x y : N) : N := wrap (x + W64 - wrap y).
 Definition two_p0 : N := 0xFFFFFFFFFFFDA.
 Definition two_pi : N := 0xFFFFFFFFFFFFE.
 Definition fe_sub (a b : fe) : fe :=
@@ -133,7 +134,7 @@ Definition fe_select (a b : fe) (cond : bool) : fe := if cond then a else b.
 
 (** Mult32 *)
 Definition mul51 (a b : N) : N * N :=
-  let p := a * b in let mh := p / W64 in let ml := p mod W64 in
+  let p := a * b in let mh := hi64 p in let ml := wrap p in
   (lo51 ml, N.lor (wrap (N.shiftl mh 13)) (N.shiftr ml 51)).
 Definition fe_mult32 (x : fe) (y : N) : fe :=
   let '(x0lo, x0hi) := mul51 (l0 x) y in let '(x1lo, x1hi) := mul51 (l1 x) y in
